@@ -1,3 +1,7 @@
 import XvcPipeData.Schema
 import XvcPipeData.SchemaLemmas
+import XvcPipeData.SchemaReach
 import XvcPipeData.Props.C14
+import XvcPipeData.Invalidate
+import XvcPipeData.InvalidateLemmas
+import XvcPipeData.Props.C12
